@@ -27,7 +27,8 @@ RErr == [ok |-> FALSE, bytes |-> <<>>]
 Types == {"CoseSign1", "CoseSign", "CoseMac", "CoseMac0", "CoseEncrypt", "CoseEncrypt0", "CoseRecipient"}
 
 HXr == [EmptyHeader EXCEPT !.rest = << <<Z2I(99), Nat2I(1)>> >>]          \* extras only: differs from the empty header only outside the typed fields
-Common == {[ev |-> "call", m |-> "protected", hdr |-> h] : h \in {H1, H2, EmptyHeader, HXr}} \cup {[ev |-> "call", m |-> "unprotected", hdr |-> U1]}
+HA0 == [EmptyHeader EXCEPT !.alg = <<Assigned("Algorithm", "Reserved")>>]   \* {1: 0}: differs from the empty header by a field holding the registry's value 0
+Common == {[ev |-> "call", m |-> "protected", hdr |-> h] : h \in {H1, H2, EmptyHeader, HXr, HA0}} \cup {[ev |-> "call", m |-> "unprotected", hdr |-> U1]}
 (* a nested layer of recipients: what is created for / decrypted from the OUTER layer must not depend on it (round 6) *)
 RcpIn == [prot |-> EmptyProt, unprot |-> EmptyHeader, cipher |-> <<<<9>>>>, recips |-> <<>>]
 AddRcp(ty) == IF ty \in {"CoseMac", "CoseEncrypt", "CoseRecipient"} THEN {[ev |-> "call", m |-> "add_recipient", rcp |-> RcpIn]} ELSE {}
